@@ -2047,11 +2047,11 @@ class TargetRegistry:
             return OrderedDict()
 
     def _get_closest_type(self, obj, type_tree):
-        candidates = []
-        for cur_type, sub_tree in type_tree.items():
-            if isinstance(obj, cur_type):
-                sub_type = self._get_closest_type(obj, type_tree=sub_tree)
-                candidates.append(cur_type if sub_type is None else sub_type)
+        candidates = self._get_matching_types(obj, type_tree)
+        # a registered type that is a superclass of another matching
+        # registered type is never the closest one
+        candidates = [c for c in candidates
+                      if not any(o is not c and issubclass(o, c) for o in candidates)]
         if not candidates:
             return None
         # several unrelated registered types can match (mixins, ABCs,
@@ -2060,6 +2060,14 @@ class TargetRegistry:
         # match; ties keep registration order
         mro = type(obj).__mro__
         return min(candidates, key=lambda t: mro.index(t) if t in mro else len(mro))
+
+    def _get_matching_types(self, obj, type_tree):
+        "the deepest types in type_tree, down every branch, that obj is an instance of"
+        ret = []
+        for cur_type, sub_tree in type_tree.items():
+            if isinstance(obj, cur_type):
+                ret.extend(self._get_matching_types(obj, sub_tree) or [cur_type])
+        return ret
 
     def _register_default_types(self):
         self.register(object)
